@@ -67,6 +67,12 @@ declare -A CHECKS=(
  [C15-has-redelegation-checks-first-entry-only]="C15"
  [C17-weight-change-hook-divides-by-zero-interval]="C17 C14"
  [C19-redelegation-queue-from-map-values]="C19 C15"
+ [C05-clear-dust-early-return-skips-reset]="C05 C03"
+ [C08-slash-redelegation-errors-on-deleted-asset]="C08"
+ [C13-rebalance-down-drops-claim-before-unbond]="C13 C11"
+ [C16-create-overwrites-warming-up-asset]="C16"
+ [C18-import-overwrites-redelegation-queue-slot]="C18"
+ [C12-reward-weight-uses-validator-shares]="C12 C13"
 )
 mkdir -p /verif/out/seeded
 ids=("$@"); [ ${#ids[@]} -eq 0 ] && ids=($(ls -d /verif/seeded/*/ | xargs -n1 basename))
